@@ -111,6 +111,16 @@ def corr(ctx):
                     ctx.count("oracle:" + k, v)
                     if k.endswith("VIOLATED") and len(ctx.disagreements) < 40:
                         ctx.disagree("O_table_shape", dict(case, stage=stage), "ragged token rows", "rows = header length")
+    # the statements of C03_sections_ok / C03_rows_match_cols evaluated on the model's documents
+    for case, r in zip(batch, M.statement_check(PID, batch)):
+        if r is None:
+            continue
+        ctx.corr_cases += 1
+        ctx.count("statement:sections_ok:%s" % r["sections"])
+        ctx.count("statement:rows_ok:%s" % r["rows"])
+        ctx.count("statement:transitions_ok:%s" % r["transitions"])
+        if r["static"] and (not r["sections"] or not r["rows"]):
+            ctx.disagree("C03 statement fails on the model's document", dict(case, stage="parse"), "", "sections_ok/rows_ok false")
     ctx.notes.append("correspondence: %d (case, stage) pairs outside the modelled subset (not compared)" % n_notmodelled)
     if batch:
         ctx.sample({"correspondence_case": batch[len(batch) // 3]})
@@ -130,9 +140,16 @@ def replay(ctx, data):
     return c03_search.replay(ctx, data)
 
 
-LEVEL_TEXT = ("Proof (Coq): on the identity-labelled tree model of the renderer (every node carries the allocation number of its "
-              "Python object) ... see Props/C03.v. The model is tied to the code by Gen/Render.v and by differential "
-              "correspondence directly after parsing and after the modelled transforms, on every run.")
-LEVEL_NOTE = ("Trusted: Coq kernel; transcriptions (correspondence-checked); parent pointers and the full docutils/Sphinx "
-              "transform pipeline are checked on the implementation by the search walker only. Open findings: see "
-              "known_findings.json (C03).")
+LEVEL_TEXT = ("Proof (Coq, all theorems closed under the global context) on the identity-labelled tree model (every node carries the "
+              "allocation number of its Python object): no object is reachable twice after rendering and after the modelled transforms "
+              "incl. CollectFootnotes' remove+append and ResolveAnchorIds' child move (C03_single_occurrence); sections only under "
+              "document/section and starting with a title (C03_sections_ok); rows match columns under O_table_shape "
+              "(C03_rows_match_cols); transitions: refuted on the faithful model, proved when thematic breaks are top-level "
+              "(C03_transitions_ok_partial); generated ids fresh (C03_ids_unique_partial), refuted for Sphinx' preset math ids. Tie: "
+              "Gen/Render.v + differential correspondence directly after parsing and after the modelled transforms (tree, ids, names, "
+              "refids, backrefs, warnings) on every run; the walker of the search checks every clause on the implementation after "
+              "parsing and after the full docutils / Sphinx pipelines.")
+LEVEL_NOTE = ("Trusted: Coq kernel; transcriptions of base.py/sphinx_.py/transforms.py and of docutils' registry + Footnotes transform "
+              "(correspondence-checked); parent pointers and the full transform pipelines are checked on the implementation only. Not "
+              "proved: global uniqueness of ids, refid resolution, footnote-label-first (correspondence + search). Static grammar only "
+              "(directive bodies, eval-rst, roles: search). Open findings: transition:inside-container and 14 others (see known_findings.json).")
